@@ -308,4 +308,99 @@ theorem C01_passive_step_2d (ny nx : ℤ) (hny : 1 ≤ ny) (hnx : 1 ≤ nx) (f f
   exact EqBox.trans' (diffuse_spec ny nx hny hnx f flux hne _ _)
     (diffuseOp_congr ny nx _ _ _ (advect_spec ny nx f flux vel hne hvx hvy _ s))
 
+/-! ### passive transport (3D vector field: component-wise, ONE shared flux buffer) -/
+
+theorem advectionTimestep3D_frame (nz ny nx : ℤ) (f flux : B) (vel : Vec3 B) (c : K) (s : Store3 B K) (b : B) (h1 : b ≠ f) (h2 : b ≠ flux) :
+    exec3 (advectionTimestep3D nz ny nx f flux vel c) s b = s b := by
+  apply exec3_other
+  simp [written3, Call3.written, advectionTimestep3D, advectionFlux3D, setFixedVal3D, elementwiseSum3D,
+    call_advection_flux_x_front_conservative_eno3_stencil_3d, call_advection_flux_x_back_conservative_eno3_stencil_3d,
+    call_advection_flux_y_front_conservative_eno3_stencil_3d, call_advection_flux_y_back_conservative_eno3_stencil_3d,
+    call_advection_flux_z_front_conservative_eno3_stencil_3d, call_advection_flux_z_back_conservative_eno3_stencil_3d,
+    call_set_fixed_val_stencil_3d, call_elementwise_sum_stencil_3d, h1, h2]
+
+theorem advect1_spec3 (nz ny nx : ℤ) (f flux : B) (vel : Vec3 B) (hne : flux ≠ f) (hvx : vel.x ≠ flux) (hvy : vel.y ≠ flux)
+    (hvz : vel.z ≠ flux) (c : K) (s : Store3 B K) :
+    EqB nz ny nx (exec3 (advectionTimestep3D nz ny nx f flux vel c) s f) (advect3 nz ny nx c (s vel.x) (s vel.y) (s vel.z) (s f)) := by
+  intro i j k hb
+  rw [C20.C20_euler_advection_3d_explicit nz ny nx f flux vel hne hvx hvy hvz c s i j k hb]
+  rfl
+
+/-- the advected vector field: each component advected by the same velocity -/
+def advectV3 (nz ny nx : ℤ) (c : K) (u w : V3F K) : V3F K :=
+  ⟨advect3 nz ny nx c u.x u.y u.z w.x, advect3 nz ny nx c u.x u.y u.z w.y, advect3 nz ny nx c u.x u.y u.z w.z⟩
+
+theorem advect_spec3 (nz ny nx : ℤ) (f : Vec3 B) (flux : B) (vel : Vec3 B) (hfv : Distinct33 f vel)
+    (hfx : flux ≠ f.x) (hfy : flux ≠ f.y) (hfz : flux ≠ f.z) (hvx : vel.x ≠ flux) (hvy : vel.y ≠ flux) (hvz : vel.z ≠ flux)
+    (c : K) (s : Store3 B K) :
+    EqV nz ny nx (vecOf (exec3 (advectionTimestepVec3D nz ny nx f flux vel c) s) f) (advectV3 nz ny nx c (vecOf s vel) (vecOf s f)) ∧
+    vecOf (exec3 (advectionTimestepVec3D nz ny nx f flux vel c) s) vel = vecOf s vel := by
+  have hsplit : advectionTimestepVec3D nz ny nx f flux vel c
+      = advectionTimestep3D nz ny nx f.x flux vel c ++ advectionTimestep3D nz ny nx f.y flux vel c ++ advectionTimestep3D nz ny nx f.z flux vel c := rfl
+  rw [hsplit]
+  simp only [exec3_append]
+  set s1 := exec3 (advectionTimestep3D nz ny nx f.x flux vel c) s with hs1
+  set s2 := exec3 (advectionTimestep3D nz ny nx f.y flux vel c) s1 with hs2
+  have fr1 := fun b h1 h2 => advectionTimestep3D_frame nz ny nx f.x flux vel c s b h1 h2
+  have fr2 := fun b h1 h2 => advectionTimestep3D_frame nz ny nx f.y flux vel c s1 b h1 h2
+  have fr3 := fun b h1 h2 => advectionTimestep3D_frame nz ny nx f.z flux vel c s2 b h1 h2
+  -- the velocity is never written
+  have v1 : vecOf s1 vel = vecOf s vel :=
+    vecOf_frame _ _ _ (fr1 _ hfv.xx.symm hvx) (fr1 _ hfv.xy.symm hvy) (fr1 _ hfv.xz.symm hvz)
+  have v2 : vecOf s2 vel = vecOf s vel :=
+    (vecOf_frame _ _ _ (fr2 _ hfv.yx.symm hvx) (fr2 _ hfv.yy.symm hvy) (fr2 _ hfv.yz.symm hvz)).trans v1
+  have v3 : vecOf (exec3 (advectionTimestep3D nz ny nx f.z flux vel c) s2) vel = vecOf s vel :=
+    (vecOf_frame _ _ _ (fr3 _ hfv.zx.symm hvx) (fr3 _ hfv.zy.symm hvy) (fr3 _ hfv.zz.symm hvz)).trans v2
+  have u1 : s1 vel.x = s vel.x ∧ s1 vel.y = s vel.y ∧ s1 vel.z = s vel.z := by
+    have := v1; simp only [vecOf, V3F.mk.injEq] at this; exact this
+  have u2 : s2 vel.x = s vel.x ∧ s2 vel.y = s vel.y ∧ s2 vel.z = s vel.z := by
+    have := v2; simp only [vecOf, V3F.mk.injEq] at this; exact this
+  refine ⟨⟨?_, ?_, ?_⟩, v3⟩
+  · intro i j k hb
+    show exec3 (advectionTimestep3D nz ny nx f.z flux vel c) s2 f.x i j k = _
+    rw [fr3 f.x hfv.axz hfx.symm, hs2, fr2 f.x hfv.axy hfx.symm]
+    exact advect1_spec3 nz ny nx f.x flux vel hfx hvx hvy hvz c s i j k hb
+  · intro i j k hb
+    show exec3 (advectionTimestep3D nz ny nx f.z flux vel c) s2 f.y i j k = _
+    rw [fr3 f.y hfv.ayz hfy.symm]
+    have := advect1_spec3 nz ny nx f.y flux vel hfy hvx hvy hvz c s1 i j k hb
+    rw [← hs2] at this
+    rw [this, u1.1, u1.2.1, u1.2.2, hs1, fr1 f.y hfv.axy.symm hfy.symm]
+    rfl
+  · intro i j k hb
+    show exec3 (advectionTimestep3D nz ny nx f.z flux vel c) s2 f.z i j k = _
+    have := advect1_spec3 nz ny nx f.z flux vel hfz hvx hvy hvz c s2 i j k hb
+    rw [this, u2.1, u2.2.1, u2.2.2, hs2, fr2 f.z hfv.ayz.symm hfz.symm, hs1, fr1 f.z hfv.axz.symm hfz.symm]
+    rfl
+
+theorem advect3_congr (nz ny nx : ℤ) (c : K) (ux uy uz f f' : F3 K) (h : EqB nz ny nx f f') :
+    EqB nz ny nx (advect3 nz ny nx c ux uy uz f) (advect3 nz ny nx c ux uy uz f') := by
+  intro i j k hb
+  simp only [advect3, innerB, inB] at hb ⊢
+  rw [h i j k hb]
+  split_ifs with hin
+  · congr 1
+    simp only [enoDiv3, xfIncr3, xbIncr3, yfIncr3, ybIncr3, zfIncr3, zbIncr3, zero3,
+      advection_flux_x_front_conservative_eno3_stencil_3d, advection_flux_x_back_conservative_eno3_stencil_3d,
+      advection_flux_y_front_conservative_eno3_stencil_3d, advection_flux_y_back_conservative_eno3_stencil_3d,
+      advection_flux_z_front_conservative_eno3_stencil_3d, advection_flux_z_back_conservative_eno3_stencil_3d]
+    rw [h i j k hb, h i j (k+1) (by simp only [inB]; omega), h i j (k-1) (by simp only [inB]; omega), h i j (k+2) (by simp only [inB]; omega),
+      h i j (k-2) (by simp only [inB]; omega), h i (j+1) k (by simp only [inB]; omega), h i (j-1) k (by simp only [inB]; omega),
+      h i (j+2) k (by simp only [inB]; omega), h i (j-2) k (by simp only [inB]; omega), h (i+1) j k (by simp only [inB]; omega),
+      h (i-1) j k (by simp only [inB]; omega), h (i+2) j k (by simp only [inB]; omega), h (i-2) j k (by simp only [inB]; omega)]
+  · rfl
+
+/-- one passive-transport step of a VECTOR field (3D): every component is `diffuse(advect(component))`, independent of the
+shared scratch buffer and of the other components -/
+theorem C01_passive_step_vec_3d (nz ny nx : ℤ) (hnz : 1 ≤ nz) (hny : 1 ≤ ny) (hnx : 1 ≤ nx) (f : Vec3 B) (flux : B) (vel : Vec3 B)
+    (hfv : Distinct33 f vel) (hfx : flux ≠ f.x) (hfy : flux ≠ f.y) (hfz : flux ≠ f.z)
+    (hvx : vel.x ≠ flux) (hvy : vel.y ≠ flux) (hvz : vel.z ≠ flux) (dt dx nu : K) (s : Store3 B K) :
+    EqV nz ny nx (vecOf (exec3 (passiveStepVec3D nz ny nx f flux vel dt dx nu) s) f)
+      (diffuseOp3 nz ny nx (nu * dt / dx / dx) (advectV3 nz ny nx (dt / dx) (vecOf s vel) (vecOf s f))) := by
+  unfold passiveStepVec3D
+  rw [exec3_append]
+  obtain ⟨ha, _⟩ := advect_spec3 nz ny nx f flux vel hfv hfx hfy hfz hvx hvy hvz (dt / dx) s
+  exact (diffuse_spec3 nz ny nx hnz hny hnx f flux hfv.axy hfv.axz hfv.ayz hfx hfy hfz _ _).trans'
+    (diffuseOp3_congr _ _ _ _ _ _ ha)
+
 end Sopht.Props.C01
